@@ -21,10 +21,11 @@ import (
 func init() {
 	fw.Register(&fw.Prop{
 		ID: "C14", Level: "exploration",
-		Rule: "one case = one generated schema program (a top validator over 0-4 constraints from every s: constructor, nested validators up to depth 2, built with s:deftype / s:make-validator / make-validator-with-typedef) in a fresh runtime, validated against 10 values aimed at its constants (numbers around every comparison constant incl. beyond 2^53, lengths around every length constant, strings sampled from/near every pattern, maps with/without every named key) plus, for every map-bearing value, its all-string-key, all-symbol-key, JSON round-trip and rebuilt-in-lisp twins; every 5th case applies one malformation and demands rejection at construction.  A distinct non-trivial case = top type x how built x set of constraint constructors used x value class (kind, emptiness, origin) x observed outcome (well-formed), or malformed piece x slot x build outcome (malformed)",
+		Rule: "one case = one generated schema program (a top validator over 0-4 constraints from every s: constructor, nested validators up to depth 2, built with s:deftype / s:make-validator / make-validator-with-typedef) in a fresh runtime, validated against 10 values aimed at its constants (numbers around every comparison constant incl. beyond 2^53, lengths around every length constant, strings sampled from/near every pattern, maps with/without every named key; for every s:in enum - whose members are numbers, strings, symbols, bytes, nil, lists, arrays, maps and tagged values - its members and their kin: values of another kind with the same spelling, number, members or emptiness) plus, for every map-bearing value, its all-string-key, all-symbol-key, JSON round-trip and rebuilt-in-lisp twins; every 5th case applies one malformation and demands rejection at construction.  A distinct non-trivial case = top type x how built x set of constraint constructors used x value class (kind, emptiness, origin) x observed outcome (well-formed), or malformed piece x slot x build outcome (malformed)",
 		Assumptions: []string{
 			"the oracle is the documented meaning (libschema README + builtin docstrings) as encoded in harness/c14x; cases the documentation does not decide (listed in NOTES-C14.md) are not judged",
 			"the elps reader, sorted-map, vector, to-bytes, new/deftype, get/aref/user-data and json:dump-string/json:load-string build the value the harness wrote; this is re-checked per value by reading the built value back through the Go API and comparing it with the model value (echo check)",
+			"s:in is documented as 'checks if the input is equal to one of the allowed values'; where those words alone leave a pair open (int against float of the same value, string against symbol or bytes of the same spelling, containers, tagged values) 'equal' is taken to be the language's equality: membership must agree with (equal? input allowed) evaluated in the same runtime, both argument orders agreeing (else not judged); functions are never judged",
 			"numeric comparison in the model is exact (math/big rationals); regular expressions are matched by the harness's own backtracking matcher over the generated pattern AST, not by Go's regexp",
 		},
 		Cases: func(tier string) int {
@@ -52,6 +53,46 @@ type c14Ctx struct {
 	g   *c14x.Gen
 	idx int
 	log []string // program so far, for violation details
+	eq  map[string]int
+}
+
+// eqRef is the c14x.EqualRef of this case: (equal? v a) in the runtime under
+// test, asked in both argument orders; -1 when the orders disagree, when the
+// evaluation fails, or when a function is involved (the model cannot rebuild
+// the same function object).
+func (c *c14Ctx) eqRef(v, a *c14x.Value) int {
+	if v.HasFun() || a.HasFun() {
+		return -1
+	}
+	key := v.Canon(true) + "\x00" + a.Canon(true)
+	if r, ok := c.eq[key]; ok {
+		return r
+	}
+	if c.eq == nil {
+		c.eq = map[string]int{}
+	}
+	vs, as := v.Render(), a.Render()
+	t := c.probe("(let ((c14p " + vs + ") (c14q " + as + ")) (if (equal? c14p c14q) (if (equal? c14q c14p) 1 2) (if (equal? c14q c14p) 3 0)))")
+	res := -1
+	switch {
+	case t.IsErr:
+		c.w.Count("equal?_reference_failed", 1)
+	case t.Value == "1":
+		res = 1
+	case t.Value == "0":
+		res = 0
+	default:
+		c.w.Count("equal?_reference_asymmetric", 1)
+	}
+	c.eq[key] = res
+	c.w.Count("in_pairs_decided_by_equal?", 1)
+	kin := c14x.KinOf(v, a)
+	if kin == "" {
+		kin = v.K.String() + "-vs-" + a.K.String()
+	}
+	c.w.CoverKey(fmt.Sprintf("in-equality|%s|equal?=%d", kin, res))
+	c.w.SetAdd("in_equality_reference", fmt.Sprintf("%s equal?=%d", kin, res))
+	return res
 }
 
 func (c *c14Ctx) run(src string) rt.Transcript {
@@ -372,6 +413,17 @@ func (c *c14Ctx) attrCons(k *c14x.Cons, v *c14x.Value, expr string) *c14Culprit 
 		if v.K != c14x.VArr {
 			cu.cls = "not-an-array"
 		}
+	case "in":
+		// which allowed value is mis-compared?  Each member alone, as its own enum.
+		for _, a := range k.Vals {
+			one := &c14x.Cons{Op: "in", Vals: []*c14x.Value{a}, EqRef: k.EqRef}
+			osrc := c14Iso("s:any " + one.Src())
+			if odir, ogot := c.mism(osrc, c14x.EvalCons(one, v), expr); odir != "" {
+				cu.src, cu.dir, cu.got, cu.want = osrc, odir, ogot, c14x.EvalCons(one, v)
+				cu.cls = c14x.KinOf(v, a)
+				break
+			}
+		}
 	}
 	switch k.Op {
 	case "no-other-keys", "when", "has-key", "may-have-key":
@@ -449,6 +501,16 @@ var c14Vias = [...]string{"deftype", "make-validator", "make-validator-typedef"}
 func c14Run(w *fw.W, idx int) {
 	rng := w.RNG(idx, "main")
 	c := &c14Ctx{w: w, idx: idx, g: &c14x.Gen{R: rng, Prefix: "c14s"}}
+	c.g.EqRef = c.eqRef
+	c.g.OnKin = func(kin string, verdict int) {
+		// the class of input this extension exists for: met how often, judged how
+		top := kin
+		if i := strings.Index(kin, ":members:"); i >= 0 {
+			top = kin[:i] + ":members"
+		}
+		c.w.Count(fmt.Sprintf("in_meets_kin_of_allowed_value:%s:model+equal?=%d", top, verdict), 1)
+		c.w.CoverKey(fmt.Sprintf("in-kin|%s|%d", kin, verdict))
+	}
 	c.r = rt.New(rt.Opts{NoProbes: true})
 	if t := c.r.Run("c14prelude", c14Prelude); t.IsErr {
 		w.Violation("harness:prelude-failed", "prelude did not evaluate: "+t.Cond+" "+t.Msg, c14Prelude)
